@@ -87,7 +87,7 @@ func genScript(t *rapid.T, m gen.Module, me int) string {
 	stored := 0
 	for i := 0; i < n; i++ {
 		x := anyVar()
-		switch vk.Uniform(t, 25) {
+		switch vk.Uniform(t, 27) {
 		case 0:
 			line("r.append(attempt(lambda: str(%s)))", x)
 		case 1:
@@ -172,6 +172,20 @@ func genScript(t *rapid.T, m gen.Module, me int) string {
 				line("r.append(attempt(lambda: (%s * 1) + [%d]))", lv, 5000+me)
 				line("r.append(attempt(lambda: sorted(%s[:2] + [%d], key = lambda e: 0)))", lv, 6000+me)
 				line("r.append(attempt(lambda: len(%s)))", lv)
+			}
+		case 25, 26:
+			// closures made now by a shared factory capture variables of the shared (frozen) module; calling them
+			// reads those variables, storing them in this module's globals re-freezes them when the module ends
+			if f := pick("factory"); f != "" {
+				line("r.append(attempt(lambda: str(%s())))", f)
+				line("def callmade%d():", i)
+				line("    c = %s(%d)", f, me)
+				line("    if type(c) == \"list\":")
+				line("        return [g() for g in c]")
+				line("    return c()")
+				line("r.append(attempt(callmade%d))", i)
+				line("made_%d = %s([%d])", i, f, me)
+				line("r.append(attempt(callmade%d))", i)
 			}
 		case 24:
 			line("r.append(attempt(lambda: json.encode([\"thread-%d\", \"%s\", {\"key-%d\": \"v\"}]) + json.encode_indent({\"t\": \"%d\"})))", me, x, me, me)
